@@ -34,12 +34,33 @@ CLAIMED = {
         "SMT-decided per path, counterexamples replayed natively.",
         "numbers: any non-NaN float64 at top level, integers in [-2,2] nested; sequences L<=2; sets/dicts/relations <=2 members; "
         "relations of 2..4 rows for rank/orderby; NaN excluded by assumption"),
+    "C12": (
+        "Partial (string-literal codec kernel): bounded symbolic execution of the real printer (String/Bytes/Array.Format, "
+        "reprString/reprStr/reprEscape) and the real literal reader syntax.parseArraiString: every string of 1..2 arbitrary "
+        "Unicode scalars printed and read back gives the original, and offsets are printed as the N\\ prefix for strings, arrays "
+        "and byte arrays; SMT-decided per path, counterexamples replayed natively. Reading composite values back needs the wbnf "
+        "parser and is outside the claim.",
+        "strings of 1..2 runes over all Unicode scalar values; offsets in [-3,3]; fmt is replaced by the executor's fmt-lite "
+        "(verbs %s %v %d %c %02x, Formatter/Stringer dispatch); numbers, nesting, attribute names and dict keys not covered"),
+    "C13": (
+        "Partial: bounded symbolic execution of the real translate.Translator.ToArrai/FromArrai pair (strict mode) on decoded "
+        "documents, of FromArrai/ToArrai on every finite float64 (FP theory), and of //bits.mask / //bits.set; SMT-decided per "
+        "path, counterexamples replayed natively. encoding/json, yaml.v3, CSV text codecs and the wire format are outside.",
+        "documents of depth <=2 (width 2 at the top, 1 nested); every finite float64 as a number; bits: all n < 2^8 and all "
+        "subsets of {0..5}; Go maps iterate in insertion order in the executor"),
     "C14": (
         "Bounded symbolic execution of the real //seq helpers (stdSeqContains/HasPrefix/HasSuffix/TrimPrefix/TrimSuffix/Sub/Split/"
         "Join, array helpers, Go strings/bytes functions interpreted from GOROOT) on abstract sequences over a 3-symbol alphabet "
         "in all three representations against textbook definitions; SMT-decided per path, counterexamples replayed natively.",
         "subject length <=4 (predicates) / <=3, pattern <=3 / <=2; alphabet {0,1,2}; strings.Index/bytes.Index and UTF-8 coding "
         "are executor intrinsics written from their definitions"),
+    "C20": (
+        "Bounded exploration by the symbolic executor of the real RunExpr/ForeachLeaf/isLiteralTrue/isLiteralFalse/calcStats over "
+        "every result tree of depth <=2 and width <=2 built through the real constructors (tuples, offset arrays, dicts; leaves "
+        "true/false/number/plain set), against a census known by construction: one result per leaf, distinct paths, counts add "
+        "up, run fails iff some leaf is not true, no panic (sparse arrays included).",
+        "depth <=2, width <=2; array offsets in [-2,2]; the directory walk (getTestFiles), Compile and the report formatting are "
+        "outside the claim"),
 }
 
 NOT_APPLICABLE = {
